@@ -268,10 +268,15 @@ def make_case(seed, cid, quick=True, family=None, dim=None, topo=None, widenings
             L.append("cert %d" % r0); L.append("cert %d" % res[1])
             L.append("#! samecert %d %d" % (r0, res[1]))
             # the iteration continues on either representation (the results are the same set, or a finding)
-            nx = res[r.choice([0, 0, 1])]
-            L.append("cmp %d %d" % (x, nx))
-            if r.random() < 0.3: L.append("cmp %d %d" % (nx, x))
-            L.append("#! step %s %d %d" % (w, x, nx))
+            j = r.choice([0, 0, 1])
+            nx, yop = res[j], pairs[j][1]
+            if yop != x:
+                # the smaller operand actually passed is another representation of x_k: its certificate must be x_k's
+                L.append("cert %d" % yop); L.append("#! samecert %d %d" % (x, yop))
+            L.append("cmp %d %d" % (yop, nx))
+            if r.random() < 0.3: L.append("cmp %d %d" % (nx, yop))
+            # the per-step hypothesis, on the objects the library was given
+            L.append("#! step %s %d %d" % (w, yop, nx))
             # the variants are judged against the plain widening of the SAME representation pair
             if r.random() < p_extra:
                 for (t, pi) in [(1, 0), (r.choice([2, 3]), 1), (0, 2)]:
